@@ -389,6 +389,30 @@ func c09Mutants(r *rand.Rand, p gen.C09Printed) []c09Mutant {
 		}
 		sites = append(sites, s)
 	}
+	// brackets that balance in number but close before they open: `L ) op ( R` around an operator that
+	// sits outside every bracket of the minimal spelling
+	depthAt := func(i int) int {
+		d := 0
+		for _, t := range toks[:i] {
+			if t.IsOpener() {
+				d++
+			} else if t.IsCloser() {
+				d--
+			}
+		}
+		return d
+	}
+	for _, s := range sites {
+		if s.Kind == "bin" && s.LT <= s.RF && depthAt(s.LF) == 0 && depthAt(s.RF) == 0 {
+			m := append([]gen.C09Tok{}, toks[:s.LT]...)
+			m = append(m, gen.C09Tok{Text: ")", Kind: gen.C09CloseParen, Tight: true})
+			m = append(m, toks[s.LT:s.RF]...)
+			m = append(m, gen.C09Tok{Text: "(", Kind: gen.C09OpenParen})
+			m = append(m, toks[s.RF:]...)
+			out = append(out, c09Mutant{"close-before-open:" + s.Name, gen.C09Canonical(m)})
+			break
+		}
+	}
 	for n := 0; n < 3 && len(sites) > 0; n++ {
 		s := sites[r.IntN(len(sites))]
 		if s.Kind == "bin" {
@@ -476,6 +500,9 @@ func (p c09) Run(w *mon.Worker, idx int) mon.Result {
 		return c09TableCase()
 	}
 	r := w.Rand(idx)
+	if idx%40 == 3 {
+		return c09ArgCase(w, r)
+	}
 	cs := gen.C09Generate(r, idx-1)
 	e := cs.Expr
 	st := e.Stats()
